@@ -141,7 +141,9 @@ func (fv *familyVersion) GetLiveReferenceFiles(store string) map[FamilyID][]tabl
 // cannot remove current version from active versions.
 func (fv *familyVersion) removeVersion(v Version) {
 	fv.mutex.Lock()
-	if v != fv.current {
+	// NOTE: check the ref count again under the lock, a snapshot may have retained the version
+	// (when it was still the current one) after the caller saw the count drop to zero.
+	if v != fv.current && v.NumOfRef() == 0 {
 		delete(fv.activeVersions, v.ID())
 	}
 	fv.mutex.Unlock()
